@@ -51,10 +51,10 @@ MORE = {
          "Fixpoint over feeds (contributing and non-contributing), polls, resets, reset storms, clock ticks and long pauses (998, 1000, 2^20, 2^32-2, 2^32 ms); timeouts 0, 0.5 ms and 1.5 ms (quarter / half millisecond ticks), 2 ms, 2^40 ms, and 2^32 ms, 2^55 s, 2^58 s, 2^61 s, Duration::MAX (each aliases to zero under one truncating conversion); pumped cycles; further timeout classes 500 ns / 1500 ns / 1 s on matching clocks; a cross-target transcript (timeouts 2 ms and 10 s, pauses 4295 ms and 6 s) reproduced under Miri on i686 and s390x; finite timeouts (50 ms, 10 s) on the real clock with scheduling-independent margins; rules R1-R5 judged on every transition; every feed re-executed at four later instants; one- and two-step concrete probes; CAP-doubling rerun and stateright cross-count in thorough.",
          "Mock clock hook; byte-value abstraction with concretisation probes; age saturation (cross-checked by doubling).", "4 C13"),
  "C14": (True, MC, "explicit-state model checking of the real scanner x history observer (literal reading of the statement's clauses P1-P7)",
-         "Same product as C13 (timeouts 0, 2 ms, 2^40 ms and the five astronomically long ones) with the no-fabrication / no-duplication / no-loss rules P1-P7; malformed and mixed-kind traffic, non-contributing traffic, reset storms and long pauses are part of the alphabet; timeout classes 500 ns / 1500 ns / 1 s; in every state feeds through a message type whose n-th getter call panics.",
+         "Same product as C13 (timeouts 0, 2 ms, 2^40 ms and the five astronomically long ones) with the no-fabrication / no-duplication / no-loss rules P1-P7; malformed and mixed-kind traffic, non-contributing traffic, reset storms and long pauses are part of the alphabet; timeout classes 500 ns / 1500 ns / 1 s; the standardised RPNs (0,2)..(0,6) selected in one step in a small exploration; in every state feeds through a message type whose n-th getter call panics.",
          "Mock clock hook; byte-value abstraction with concretisation probes; age saturation.", "4 C14"),
  "C15": (True, MC, "explicit-state model checking of a two-channel product (multi-channel scanner vs two solo scanners) for channel pairs, all three scanners",
-         "Fixpoint of (M, A, B) per channel pair with distinct per-channel values, system messages that look like (N)RPN traffic, third-channel traffic, polls, ticks, 2^32 ms pauses and reset storms with traffic; one pair (eight in thorough) with a 1 s timeout on a 250 ms clock; complete messages for standardised RPNs (MPE configuration, null, RPN 0) as single actions on the pair (0, 8); quick: 14 pairs incl. all {c, c+8} and 2 triples (M, A, B, C); thorough: all 120 pairs and 6 triples.",
+         "Fixpoint of (M, A, B) per channel pair with distinct per-channel values, system messages that look like (N)RPN traffic, third-channel traffic, polls, ticks, 2^32 ms pauses and reset storms with traffic; one pair (eight in thorough) with a 1 s timeout on a 250 ms clock and one with a 1.5 ms timeout on half-millisecond ticks; complete messages for standardised RPNs (MPE configuration, null, RPN 0) as single actions on the pair (0, 8); quick: 14 pairs incl. all {c, c+8} and 2 triples (M, A, B, C); thorough: all 120 pairs and 6 triples.",
          "Two simultaneously active channels in the pair products, three in the triple products; four or more active channels are not explored.", "4 C15"),
  "C16": (True, MC, "exhaustive enumeration of non-contributing messages at every state of the scanners' explicit-state fixpoints; exhaustive predicate tables",
          "Every state of each scanner's abstract fixpoint x ~20k-50k non-contributing messages: no report and == state; predicates for all 128 controller numbers; converse link between predicate and observed behaviour.",
